@@ -1686,4 +1686,133 @@ example :
     have h5 := h.2.2.2.2.1
     exact h5 (by decide) _ (List.mem_cons_self ..) rfl
 
+/-! ### the give-up is never premature (seeded C07-10) -/
+
+/-- time stamp of a client event -/
+def evTime : CEvent → Nat
+  | .appSend now _ _ => now
+  | .rx now _ _ => now
+  | .tick now => now
+
+/-- `GiveUpLate req T last k c es`: while `es` runs from `c` — `last` = time of the latest transmission of `req` so far, `k` = number
+    of its transmissions so far — every call of the NACK handler happens after `1 + MAX_RETRANSMIT` transmissions of the request
+    and no earlier than `T·2^MAX_RETRANSMIT` after the latest of them -/
+def GiveUpLate (req : Dgram) (T : Nat) : Nat → Nat → Client → List CEvent → Prop
+  | _, _, _, [] => True
+  | last, k, c, e :: es =>
+    (nNack (c.step e).2 ≠ 0 → k = 1 + maxRetransmit ∧ last + T * 2 ^ maxRetransmit ≤ evTime e) ∧
+    GiveUpLate req T (if Out.tx req ∈ (c.step e).2 then evTime e else last)
+      (if Out.tx req ∈ (c.step e).2 then k + 1 else k) (c.step e).1 es
+
+/-- the timed shape of the client during the exchange: idle, or the request waits with `retransmit_cnt = k - 1 ≤ MAX_RETRANSMIT`
+    and a deadline at least `T·2^cnt` after its latest transmission -/
+def TW (req : Dgram) (T last k : Nat) (c : Client) : Prop :=
+  c.L = Idle ∨ ∃ n, c.L = Wt n ∧ n.d = req ∧ n.timeout = T ∧ n.cnt + 1 = k ∧ n.cnt ≤ maxRetransmit ∧ last + T * 2 ^ n.cnt ≤ n.due
+
+theorem TW_shape {req : Dgram} {T last k : Nat} {c : Client} (h : TW req T last k c) : CShape req c := by
+  rcases h with h | ⟨n, hL, hn, _⟩
+  · exact Or.inl h
+  · exact Or.inr ⟨n, hL, hn⟩
+
+theorem giveUpLate_run {req r : Dgram} (X : Exchange req r) {T : Nat} (hT : 0 < T) :
+    ∀ (es : List CEvent) (last k : Nat) (c : Client), TW req T last k c → (∀ e ∈ es, ExEv req r e) →
+      GiveUpLate req T last k c es := by
+  intro es
+  induction es with
+  | nil => intro _ _ _ _ _; trivial
+  | cons e es ih =>
+    intro last k c hw hes
+    have he := hes e (List.mem_cons_self ..)
+    have hes' : ∀ e' ∈ es, ExEv req r e' := fun e' h => hes e' (List.mem_cons_of_mem _ h)
+    cases he with
+    | tick now =>
+      have hstep : c.step (.tick now) = c.tick now := rfl
+      rcases hw with hL | ⟨n, hL, hn, hnT, hk, hle, hb⟩
+      · have h0 := tick_Idle_client c now hL
+        refine ⟨?_, ?_⟩
+        · rw [hstep, h0]; intro h; exact absurd rfl h
+        · rw [hstep, h0]
+          simp only [List.not_mem_nil, if_false]
+          exact ih last k c (Or.inl hL) hes'
+      · have hc : n.d.type = .con := by rw [hn]; exact X.hreq
+        have hex := tick_Wt_explicit c now n hL hc (by rw [hnT]; exact hT)
+        by_cases hdue : n.due ≤ now
+        · by_cases hcnt : n.cnt < maxRetransmit
+          · simp only [hdue, hcnt, if_true] at hex
+            refine ⟨?_, ?_⟩
+            · rw [hstep, hex]; intro h; exact absurd rfl h
+            · rw [hstep, hex]
+              have hmem : Out.tx req ∈ [Out.tx n.d] := by rw [hn]; simp
+              simp only [hmem, if_true, evTime]
+              refine ih now (k + 1) _ (Or.inr ⟨_, rfl, hn, hnT, by simp only []; omega, by simp only []; omega, ?_⟩) hes'
+              simp only [hnT]; omega
+          · simp only [hdue, hcnt, if_true, if_false] at hex
+            refine ⟨?_, ?_⟩
+            · intro _
+              have h4 : n.cnt = maxRetransmit := by omega
+              rw [h4] at hb hk
+              simp only [evTime]
+              exact ⟨by omega, by omega⟩
+            · rw [hstep, hex]
+              have : Out.tx req ∉ [Out.callNack Nack.retries n.d.mid] := by simp
+              simp only [this, if_false]
+              exact ih last k _ (Or.inl rfl) hes'
+        · simp only [hdue, if_false] at hex
+          refine ⟨?_, ?_⟩
+          · rw [hstep, hex]; intro h; exact absurd rfl h
+          · rw [hstep, hex]
+            simp only [List.not_mem_nil, if_false]
+            exact ih last k c (Or.inr ⟨n, hL, hn, hnT, hk, hle, hb⟩) hes'
+    | emptyAck now ok =>
+      obtain ⟨hI, h0⟩ := rx_step_facts X c (TW_shape hw) now _ ok (.emptyAck now ok)
+      exact ⟨fun h => absurd h0 h, ih _ _ _ (Or.inl hI) hes'⟩
+    | response now ok =>
+      obtain ⟨hI, h0⟩ := rx_step_facts X c (TW_shape hw) now _ ok (.response now ok)
+      exact ⟨fun h => absurd h0 h, ih _ _ _ (Or.inl hI) hes'⟩
+
+/-- **The give-up is never premature**: a Confirmable request sent at `now0` from a quiet session with initial timeout `T > 0`;
+    for EVERY sequence of timer steps (at any times) and arrivals of copies of the Empty ACK and of the response, a call of the
+    NACK handler happens only after all `1 + MAX_RETRANSMIT` transmissions of the request and no earlier than
+    `T·2^MAX_RETRANSMIT` (≥ 16·ACK_TIMEOUT) after the LAST of them — so a response to that last transmission that travels
+    less than ACK_TIMEOUT each way still finds the request waiting ("never both"; piggybacked: `exactly_once_piggybacked`). -/
+theorem giveup_never_premature {req r : Dgram} (X : Exchange req r) (c0 : Client) (hidle : c0.L = Idle)
+    (now0 T : Nat) (hT : 0 < T) (es : List CEvent) (hes : ∀ e ∈ es, ExEv req r e) :
+    GiveUpLate req T now0 1 (c0.appSend now0 req T).1 es := by
+  refine giveUpLate_run X hT es now0 1 _ ?_ hes
+  rw [appSend_Idle c0 now0 req T hidle X.hreq]
+  exact Or.inr ⟨_, rfl, rfl, rfl, rfl, by simp only [maxRetransmit]; omega, Nat.le_refl _⟩
+
+instance decGiveUpLate (req : Dgram) (T : Nat) :
+    (last k : Nat) → (c : Client) → (es : List CEvent) → Decidable (GiveUpLate req T last k c es)
+  | _, _, _, [] => isTrue trivial
+  | last, k, c, e :: es =>
+    have := decGiveUpLate req T (if Out.tx req ∈ (c.step e).2 then evTime e else last)
+      (if Out.tx req ∈ (c.step e).2 then k + 1 else k) (c.step e).1 es
+    by unfold GiveUpLate; exact inferInstance
+
+/-- non-vacuity: four transmissions lost, the fifth answered: the NACK handler is never called, the response is delivered once;
+    and the schedule in which nothing is answered: the NACK comes at 63000 = 31000 (last transmission) + 16·T -/
+example :
+    let es : List CEvent := [.tick 3000, .tick 7000, .tick 15000, .tick 31000, .rx 32400 { wReq with type := .ack, code := 69 } true,
+                             .tick 63000]
+    (∀ e ∈ es, ExEv wReq { wReq with type := .ack, code := 69 } e) ∧
+    nNack (Client.run {} (.appSend 1000 wReq 2000 :: es)).2 = 0 ∧ nRsp (Client.run {} (.appSend 1000 wReq 2000 :: es)).2 = 1 ∧
+    nTx wReq (Client.run {} (.appSend 1000 wReq 2000 :: es)).2 = 5 := by
+  refine ⟨?_, by decide, by decide, by decide⟩
+  intro e he
+  simp only [List.mem_cons, List.mem_nil_iff, or_false] at he
+  rcases he with rfl | rfl | rfl | rfl | rfl | rfl
+  · exact .tick _
+  · exact .tick _
+  · exact .tick _
+  · exact .tick _
+  · exact .response _ _
+  · exact .tick _
+
+example :
+    GiveUpLate wReq 2000 1000 1 (({} : Client).appSend 1000 wReq 2000).1 (ticks [3000, 7000, 15000, 31000, 62999, 63000]) ∧
+    nNack (Client.run {} (.appSend 1000 wReq 2000 :: ticks [3000, 7000, 15000, 31000, 62999])).2 = 0 ∧
+    nNack (Client.run {} (.appSend 1000 wReq 2000 :: ticks [3000, 7000, 15000, 31000, 62999, 63000])).2 = 1 := by
+  refine ⟨by decide, by decide, by decide⟩
+
 end Coap.C07
